@@ -2,6 +2,7 @@ import CircusProofs.Core.ConvReap
 import CircusProofs.Core.ConvSurplus
 import CircusProofs.Core.ConvMulti
 import CircusProofs.Core.ConvMultiReap
+import CircusProofs.Core.ConvSurplusStub
 import CircusProofs.Props.C01Conv
 /-!
 # C01 — convergence, generalised
@@ -48,9 +49,13 @@ as they like).  `manage_processes` sorts the `Process` objects by start time, ne
   are collected within the step (`obedLogs`); they leave the dict without a `reap` event (`manage_processes` pops them
   itself); the `N` newest stay listed in their order, running; nothing is in flight afterwards;
 * `C01_surplus_converged_stays` — … and any number of further checks changes neither the list nor the log.
-Workers that *ignore* the stop signal make the check park on 100 ms timers (one `kill_process` coroutine each, then
-SIGKILL after `⌈graceful/100 ms⌉` polls): the machinery for that polling phase is Core/StopRunG.lean (`stop`, `rm`,
-`quit`), stated for the `kill_processes` of a whole watcher; it is not instantiated for the surplus branch here.
+Surplus workers that *ignore* the stop signal (`SurplusStubOk`: they die at once on SIGKILL) make the check park on
+100 ms timers — one `kill_process` coroutine each, polling with `poll()`, then SIGKILL after `⌈graceful/100 ms⌉` polls
+(Core/ConvSurplusStub.lean: the polling phase of Core/StopRunG.lean below `manage_after_kill`, over a subset of the
+watcher's workers):
+* **`C01_surplus_stubborn_converges`** — `check` + exactly `(m − N)·⌈graceful_timeout/100 ms⌉` timer firings end idle: the
+  `m − N` oldest workers killed and waited for, popped; the `N` newest listed in their order, running, untouched;
+* `C01_surplus_stubborn_stays` — … and further checks change nothing.
 
 ## C. several watchers
 
@@ -265,6 +270,37 @@ theorem C01_surplus_converged_stays (u N n : Nat) (w : Watcher) (s : State) (hi 
     (run s (.check :: List.replicate n .check)).log = obedLogs s.a w (surplus s.objs w.pids N) s.log :=
   check_surplus_stays u N n w s hi hd hgt
 
+/-- **convergence from a surplus of workers that ignore the stop signal**: from an idle state whose (only, active)
+    watcher lists `m > N = numprocesses` running workers, the surplus ones (all but the `N` newest) ignoring the stop
+    signal and dying at once on SIGKILL, the periodic check followed by exactly `(m − N)·⌈graceful_timeout/100 ms⌉` timer
+    firings ends idle — no frame, timer, future, ready callback, the slot free — with the watcher listing exactly the
+    workers outside `surplus`, in their old order, all running in a still kernel; every surplus worker is gone from the
+    kernel (SIGKILL, waited for); no pid was allocated. -/
+theorem C01_surplus_stubborn_converges (u N : Nat) (w : Watcher) (s : State) (hi : Idle u s) (hd : SurplusStubOk u N w s)
+    (hgt : N < w.pids.length) :
+    let T := surplus s.objs w.pids N
+    let s' := run s (.check :: List.replicate (T.length * pollsOf w.graceful) .wake)
+    Idle u s' ∧ DatL u N (w.pids.filter (fun p => decide (p ∉ T))) s' ∧
+    (w.pids.filter (fun p => decide (p ∉ T))).length = N ∧ (∀ q ∈ T, s'.k.GoneP q) ∧ s'.k.nextPid = s.k.nextPid := by
+  intro T s'
+  obtain ⟨h1, h2, h3, h4⟩ := check_surplus_stub_converges u N w s hi hd hgt
+  have hobj : ∀ pid ∈ w.pids, ∃ o, s.objs.find? (fun x => decide (x.pid = pid)) = some o := fun pid hp => by
+    obtain ⟨_, o, ho, _⟩ := hd.procs pid hp; exact ⟨o, ho⟩
+  exact ⟨h1, h2, kept_length s.objs w.pids N hobj hd.nodup (by omega), h3, h4⟩
+
+/-- **… and stays there**: any number of further checks leaves the same `N` workers listed and running, nothing in
+    flight, and adds nothing to the log -/
+theorem C01_surplus_stubborn_stays (u N n : Nat) (w : Watcher) (s : State) (hi : Idle u s) (hd : SurplusStubOk u N w s)
+    (hgt : N < w.pids.length) :
+    let T := surplus s.objs w.pids N
+    let s' := run s (.check :: List.replicate (T.length * pollsOf w.graceful) .wake)
+    Idle u (run s' (List.replicate n .check)) ∧
+    DatL u N (w.pids.filter (fun p => decide (p ∉ T))) (run s' (List.replicate n .check)) ∧
+    (run s' (List.replicate n .check)).log = s'.log := by
+  intro T s'
+  obtain ⟨h1, h2, h3, _, _⟩ := C01_surplus_stubborn_converges u N w s hi hd hgt
+  exact checks_stayL u N _ h3 n s' h1 h2
+
 /-! ### non-vacuity: three workers started 700 ms apart, then numprocesses is 1 -/
 
 def c01S0 : State := initState c01Cfg [{ spawnMs := 20 }] 0
@@ -318,6 +354,75 @@ example : (run c01sS [.check]).ws.map (·.pids) = [[102]] ∧
     (run c01sS [.check]).frames.length = 0 ∧ (run c01sS [.check]).sleepers.length = 0 ∧ (run c01sS [.check]).a.slot = none ∧
     (run c01sS [.check, .check]).log.length = (run c01sS [.check]).log.length := by
   decide +kernel
+
+/-! the same with workers that ignore the stop signal (`term := none`), `graceful_timeout` 300 ms = 3 polls -/
+
+def c01T0 : State := initState c01Cfg [{ spawnMs := 20, term := none }] 0
+def c01T1 : State := run c01T0 [.check, .wake, .wake, .wake]
+def c01sT : State := { c01T1 with ws := [c01wS] }
+
+/-- `pid` runs, ignores the stop signal and dies at once on SIGKILL -/
+def stubB (k : Kernel) (pid : Nat) : Bool :=
+  match k.find pid with
+  | some p => (p.st == .run) && (p.behav.term == none) && (p.behav.killLat == 0)
+  | none => false
+
+theorem stubB_spec {k : Kernel} {pid : Nat} (h : stubB k pid = true) : k.Stub pid := by
+  unfold stubB at h
+  cases hf : k.find pid with
+  | none => rw [hf] at h; simp at h
+  | some p =>
+    rw [hf] at h
+    simp only [Bool.and_eq_true, beq_iff_eq] at h
+    exact ⟨p, hf, h.1.1, h.1.2, h.2⟩
+
+theorem c01sT_idle : Idle 1 c01sT :=
+  ⟨by decide +kernel, by decide +kernel, by decide +kernel, by decide +kernel, by decide +kernel, by decide +kernel,
+   by decide +kernel, by decide +kernel, by decide +kernel⟩
+
+theorem c01sT_ok : SurplusStubOk 1 1 c01wS c01sT where
+  ws := rfl
+  wok := ⟨rfl, rfl, rfl, rfl, rfl, rfl, rfl, by decide⟩
+  sok := ⟨rfl, rfl, rfl, by decide⟩
+  polls := by decide
+  nodup := by decide
+  blocked := by decide +kernel
+  still := ⟨by decide +kernel, by decide +kernel, by decide +kernel, by decide +kernel, by decide +kernel, by decide +kernel⟩
+  base := ⟨by decide +kernel, by decide +kernel, by decide +kernel, by decide +kernel, by decide +kernel⟩
+  procs := by
+    intro pid hp
+    have : workerOkB c01sT pid = true := by
+      simp only [c01wS, List.mem_cons, List.mem_nil_iff, or_false] at hp
+      rcases hp with rfl | rfl | rfl <;> decide +kernel
+    exact workerOkB_spec this
+  stub := by
+    intro pid hp
+    have hs : surplus c01sT.objs c01wS.pids 1 = [101, 100] := by decide +kernel
+    rw [hs] at hp
+    have : stubB c01sT.k pid = true := by
+      simp only [List.mem_cons, List.mem_nil_iff, or_false] at hp
+      rcases hp with rfl | rfl <;> decide +kernel
+    exact stubB_spec this
+
+example : ∃ w', (run c01sT (.check :: List.replicate 6 .wake)).ws = [w'] ∧ w'.pids = [102] := by
+  have h := C01_surplus_stubborn_converges 1 1 c01wS c01sT c01sT_idle c01sT_ok (by decide)
+  have hs : surplus c01sT.objs c01wS.pids 1 = [101, 100] := by decide +kernel
+  have hp : pollsOf c01wS.graceful = 3 := by decide
+  simp only [hs, hp] at h
+  obtain ⟨_, ⟨w', h1, _, h3, _⟩, _⟩ := h
+  exact ⟨w', h1, h3⟩
+
+-- the same run evaluated: the stop signals at the check; parked (two timers) for five firings; SIGKILL for both at the
+-- third poll; idle after the sixth firing, 102 kept
+example : ((run c01sT [.check]).log.drop c01sT.log.length).map showObs =
+      ["o sig 101 15 r", "o ev 97 kill 101 -", "o sig 100 15 r", "o ev 97 kill 100 -"] ∧
+    (run c01sT [.check]).sleepers.length = 2 ∧
+    (run c01sT (.check :: List.replicate 5 .wake)).a.slot = some "manage_watchers" ∧
+    ((run c01sT (.check :: List.replicate 6 .wake)).log.drop (run c01sT [.check]).log.length).map showObs =
+      ["o sig 101 9 r", "o ev 97 kill 101 -", "o reap 101 9", "o sig 100 9 r", "o ev 97 kill 100 -", "o reap 100 9"] ∧
+    (run c01sT (.check :: List.replicate 6 .wake)).ws.map (·.pids) = [[102]] ∧
+    (run c01sT (.check :: List.replicate 6 .wake)).frames.length = 0 ∧
+    (run c01sT (.check :: List.replicate 6 .wake)).a.slot = none := by decide +kernel
 
 /-! ## C. several watchers -/
 
